@@ -1368,9 +1368,13 @@ def _translate_nonmem_time_and_date_value(ser, timecol, datecol):
     if date.startswith('-') or len(a) == 1:
         return timeval + float(date) * 24
     elif len(a) == 2:
-        year = 2001  # Non leap year
-        month = a[1]
-        day = a[0]
+        year = '2001'  # Non leap year
+        if datecol.endswith('1') or datecol.endswith('3'):
+            day = a[0]
+            month = a[1]
+        else:  # DATE and DAT2 have the month first
+            month = a[0]
+            day = a[1]
     elif len(a) == 3:
         if datecol.endswith('E'):
             month = a[0]
@@ -1388,38 +1392,38 @@ def _translate_nonmem_time_and_date_value(ser, timecol, datecol):
             year = a[0]
             month = a[1]
             day = a[2]
-        if len(year) < 3:
-            year = int(year)
-            if year > 50:
-                year += 1900
-            else:
-                year += 2000
-        else:
-            year = int(year)
-        month = int(month)
-        day = int(day)
-        hour = int(timeval)
-        timeval = (timeval - hour) * 60
-        minute = int(timeval)
-        timeval = (timeval - minute) * 60
-        second = int(timeval)
-        timeval = (timeval - second) * 1000000
-        microsecond = int(timeval)
-        timeval = (timeval - microsecond) * 1000
-        nanosecond = int(timeval)
-        ts = pd.Timestamp(
-            year=year,
-            month=month,
-            day=day,
-            hour=hour,
-            minute=minute,
-            second=second,
-            microsecond=microsecond,
-            nanosecond=nanosecond,
-        )
-        return ts
     else:
         raise DatasetError(f'Bad DATE value: {date}')
+    if len(year) < 3:
+        year = int(year)
+        if year > 50:
+            year += 1900
+        else:
+            year += 2000
+    else:
+        year = int(year)
+    month = int(month)
+    day = int(day)
+    hour = int(timeval)
+    timeval = (timeval - hour) * 60
+    minute = int(timeval)
+    timeval = (timeval - minute) * 60
+    second = int(timeval)
+    timeval = (timeval - second) * 1000000
+    microsecond = int(timeval)
+    timeval = (timeval - microsecond) * 1000
+    nanosecond = int(timeval)
+    ts = pd.Timestamp(
+        year=year,
+        month=month,
+        day=day,
+        hour=hour,
+        minute=minute,
+        second=second,
+        microsecond=microsecond,
+        nanosecond=nanosecond,
+    )
+    return ts
 
 
 def _translate_time_and_date_columns(df, timecol, datecol, idcol):
